@@ -396,7 +396,7 @@ class C08(Spec):
         "Earverif.FloatDoc." + t
         for t in ("realFloatText_dumpsNum", "realSecondsText_dumpsNum", "floatTexts_in_toXml", "floatRow_texts",
                   "obj_floatTexts_real", "gainRow_texts", "jumpRow_texts", "obj_numTexts_real", "no_float_handleText",
-                  "float_rows_count"))
+                  "float_rows_count", "siteRow_texts", "obj_siteTexts_real", "custom_rows_classified"))
     trusted_base = (
         "models Earverif/Model/TimeFormat.lean, GenIds.lean, Chna.lean are hand transliterations of "
         "time_format.parse_time/unparse_time, generate_ids.generate_ids, AudioID.asByteArray and the row decoding in "
@@ -465,9 +465,10 @@ class C08(Spec):
         "with the document model under the decidable hypothesis NumsBounded (every Leaf.num k under a declarative "
         "FloatType row of the element's regenerated parser table, every linear gain written by the five gain handlers: "
         "|k| < 2^36*10^5 or the unwritten handler default; jumpPosition interpolationLength additionally 0 <= k) for the "
-        "generic handler-table path, the gain handlers and jumpPosition only — the Int fields of the other hand-written "
-        "structures (positions, bounds, channelLock, divergence, zones, positionOffset, frequency, screen centre / width, "
-        "interaction ranges) are not traversed; the class / document round-trip theorems themselves stay "
+        "generic handler-table path, the gain handlers and jumpPosition, and (ObjSitesBounded: every Int held by the "
+        "stored value bounded) for the other hand-written handlers (positions with bounds, channelLock, divergence, zones, "
+        "positionOffset, frequency, screen centre / width, interaction ranges; which texts are number texts is specified "
+        "per handler in siteSpecs); the class / document round-trip theorems themselves stay "
         "over Leaf.num (k : Int) with no bound on k and with loadsNum = inverse of "
         "dumpsNum on its image only (not float(): 0.5, 1, 1e0 are outside; -0.00000 is read as 0): "
         "grid_model_excluded_points; -0.0 and gain = -1e-7 (written -0.00000) have no grid leaf and are recorded "
@@ -1921,10 +1922,16 @@ REGISTRY = dict(
     "element / optional gain / gain attribute handlers; (3) every interpolationLength text is secondsDumps of the "
     "stored Fraction, parseFraction reads it back exactly and writing again gives the same text (RealSecondsText); and "
     "the conclusion of C08_roundtrip_model. C08_table_floatTexts_real is the class-level form for ANY parser of the "
-    "regenerated table, any hand-written implementations and any object. NOT traversed (numbers are Int fields of "
-    "hand-written structures written with dumpsNum directly; apply floatCodec_refines leaf by leaf): Objects position "
+    "regenerated table, any hand-written implementations and any object. (4) The other hand-written handlers hold their "
+    "numbers as Int fields written with dumpsNum directly; they are traversed through siteSpecs / siteRow_texts / "
+    "obj_siteTexts_real (NumsBounded also asks |k| < 2^36*10^5 for every Int held by the stored value): Objects position "
     "and DirectSpeakers position with bounds, channelLock maxDistance, objectDivergence, zoneExclusion, positionOffset, "
-    "frequency, reference-screen centre position / width, gain / position interaction ranges; a dB gain is symbolic; "
+    "frequency, reference-screen centre position / width, gain / position interaction ranges — every number text they "
+    "write (element text / named attributes, specified per handler) is RealFloatText of a held grid number; "
+    "custom_rows_classified (kernel-decided on the regenerated table): every hand-written handler pair in the tables is "
+    "a gain handler, jumpPosition, a siteSpecs handler, the BS.2076-2-only refusal or a pure delegation to a nested "
+    "parser, so no number-writing handler is left out. Left outside: a dB gain is symbolic (never written); which texts "
+    "are number texts is specified per handler, not derived from a schema; "
     "that a nested element's XML is a descendant of its main element's XML is by definition of the list / single "
     "handlers and not restated. Tie: _corr_float_doc walks the REAL adm_to_xml output of generated and directed "
     "documents together with the real objects along the regenerated parser tables and asserts that every such text "
@@ -1937,8 +1944,10 @@ REGISTRY = dict(
     "gain = -1e-7; float() keeps -0.0, the model reads 0, and no Leaf.num k prints it), the spellings 0.5 / 1 / 1e0 "
     "(none for loadsNum), and the leaf 2^36*10^5 + 1, which the class theorems cover although '{:.5f}' of the nearest "
     "double prints something else. NOT proved, only searched: the composition 'every float text of to_xml(document) "
-    "is fmt5 of a double and is read back as that double' for the hand-written handlers listed above (proved for the "
-    "declarative FloatType rows, the gain handlers and jumpPosition), lxml and the byte level of AXML (the tree is abstract), "
+    "is fmt5 of a double and is read back as that double' as a statement about lxml text (proved on the abstract tree "
+    "for the declarative FloatType rows, the gain handlers, jumpPosition and the siteSpecs handlers; the document-level "
+    "harness tie _corr_float_doc covers the FloatType rows, gain and interpolationLength, the siteSpecs handlers are tied "
+    "by the handler-level and class-level correspondence), lxml and the byte level of AXML (the tree is abstract), "
     "attrs validators, documents with floats OFF the 1e-5 grid as a whole (leaf text is a fixed point, but a value "
     "that prints like a default, e.g. width 1e-7, is written once and elided by the second generation: recorded as "
     "excluded point) — covered by generated documents over every element class and optional attribute for both "
